@@ -24,7 +24,7 @@ SCRATCH = "/tmp/mut_E3_out"
 
 # (name, kind, file, [(old text, new text)], Props id, expectation)
 MUTATIONS = [
-    ("unchanged", "control", None, [], "C17 C19 C18 C09 C14 C10 C02 C20 C11 C03 C12 C13", "all pass"),
+    ("unchanged", "control", None, [], "C17 C19 C18 C09 C14 C10 C02 C20 C11 C03 C12 C13 C15 C16", "all pass"),
     # ---- meaning-changing edits (the brief's four, plus further ones)
     ("max_bond_length: or -> and", "breaking", "mofun/detect_bonds.py",
      [("if el1 in NON_METALS or el2 in NON_METALS:", "if el1 in NON_METALS and el2 in NON_METALS:")], "C17", "fail"),
@@ -184,6 +184,57 @@ MUTATIONS = [
     ("Atoms.load: cif branch before cml branch", "neutral", "mofun/atoms.py",
      [('        elif filetype == "cml":\n            return cls.load_cml(fd or path, **kwargs)\n        elif filetype == "cif":\n            with use_or_open(fd, path) as fh:\n                return cls.load_p1_cif(fh, **kwargs)\n',
        '        elif filetype == "cif":\n            with use_or_open(fd, path) as fh:\n                return cls.load_p1_cif(fh, **kwargs)\n        elif filetype == "cml":\n            return cls.load_cml(fd or path, **kwargs)\n')], "C13", "pass"),
+    # ---- fourth batch: the reverse of each repair of 2026-09-29 must fail
+    ("__delitem__: REVERT ee36d79 (raw indices handed to the term code)", "breaking", "mofun/atoms.py",
+     [("sorted_indices = sorted({i % num_atoms for i in indices}, reverse=True)", "sorted_indices = sorted(indices, reverse=True)")], "C10", "fail"),
+    ("__delitem__: indices wrapped but repeats kept (list instead of set)", "breaking", "mofun/atoms.py",
+     [("sorted_indices = sorted({i % num_atoms for i in indices}, reverse=True)", "sorted_indices = sorted([i % num_atoms for i in indices], reverse=True)")], "C10", "fail"),
+    ("__delitem__: ascending instead of descending", "breaking", "mofun/atoms.py",
+     [("sorted_indices = sorted({i % num_atoms for i in indices}, reverse=True)", "sorted_indices = sorted({i % num_atoms for i in indices}, reverse=False)")], "C10", "fail"),
+    ("__delitem__: comprehension variable renamed, len(self) inlined", "neutral", "mofun/atoms.py",
+     [("sorted_indices = sorted({i % num_atoms for i in indices}, reverse=True)", "sorted_indices = sorted({k % len(self) for k in indices}, reverse=True)")], "C10", "pass"),
+    ("extend: REVERT 5777e16 (structure_index_map no longer normalised)", "breaking", "mofun/atoms.py",
+     [("        structure_index_map = {plain_index(k, len(other)): plain_index(v, len(self))\n                               for k, v in structure_index_map.items()}\n", "")], "C11", "fail"),
+    ("extend: plain_index returns i unchanged", "breaking", "mofun/atoms.py", [("            return i % n\n", "            return i\n")], "C11", "fail"),
+    ("extend: keys read in self, values in other", "breaking", "mofun/atoms.py",
+     [("structure_index_map = {plain_index(k, len(other)): plain_index(v, len(self))", "structure_index_map = {plain_index(k, len(self)): plain_index(v, len(other))")], "C11", "fail"),
+    ("extend: plain_index accepts i == n", "breaking", "mofun/atoms.py", [("            if not -n <= i < n:", "            if not -n <= i <= n:")], "C11", "fail"),
+    ("extend: range test of plain_index written with `and`", "neutral", "mofun/atoms.py",
+     [("            if not -n <= i < n:", "            if not (i >= -n and i < n):")], "C11", "pass"),
+    ("extend: REVERT c5d98a8 (offsets no longer padded)", "breaking", "mofun/atoms.py",
+     [("            offsets = tuple(offsets) + (0,) * (5 - len(offsets))\n", "            pass\n")], "C11", "fail"),
+    ("extend: offsets padded to four entries", "breaking", "mofun/atoms.py",
+     [("offsets = tuple(offsets) + (0,) * (5 - len(offsets))", "offsets = tuple(offsets) + (0,) * (4 - len(offsets))")], "C11", "fail"),
+    ("extend: offsets padded with ones", "breaking", "mofun/atoms.py",
+     [("offsets = tuple(offsets) + (0,) * (5 - len(offsets))", "offsets = tuple(offsets) + (1,) * (5 - len(offsets))")], "C11", "fail"),
+    ("extend: padding count clamped with max(0, …)", "neutral", "mofun/atoms.py",
+     [("offsets = tuple(offsets) + (0,) * (5 - len(offsets))", "offsets = tuple(offsets) + (0,) * max(0, 5 - len(offsets))")], "C11", "pass"),
+    ("load_lmpdat: REVERT ad79a2b (split at every '#')", "breaking", "mofun/atoms.py",
+     [("line, comment = unprocessed_line.split('#', 1)", "line, comment = unprocessed_line.split('#')")], "C13", "fail"),
+    ("load_lmpdat: REVERT 375e8ae (Masses lines no longer ordered by type id)", "breaking", "mofun/atoms.py",
+     [("        masses.sort(key=lambda m: m[0])\n", "")], "C13", "fail"),
+    ("load_lmpdat: Masses lines ordered by DESCENDING type id", "breaking", "mofun/atoms.py",
+     [("masses.sort(key=lambda m: m[0])", "masses.sort(key=lambda m: -m[0])")], "C13", "fail"),
+    ("load_lmpdat: lambda variable renamed", "neutral", "mofun/atoms.py",
+     [("masses.sort(key=lambda m: m[0])", "masses.sort(key=lambda entry: entry[0])")], "C13", "pass"),
+    ("mofun_cli: REVERT f7e45cd (no minimum of one copy per direction)", "breaking", "mofun/cli/mofun_cli.py",
+     [("repls = np.maximum(1, np.array(np.ceil(2*mic / np.diag(atoms.cell)), dtype=int))", "repls = np.array(np.ceil(2*mic / np.diag(atoms.cell)), dtype=int)")], "C20", "fail"),
+    ("mofun_cli: mic instead of 2*mic", "breaking", "mofun/cli/mofun_cli.py",
+     [("np.ceil(2*mic / np.diag(atoms.cell))", "np.ceil(mic / np.diag(atoms.cell))")], "C20", "fail"),
+    ("load_cml: REVERT f690cb1 (unqualified atom lookup)", "breaking", "mofun/atoms.py",
+     [("root.findall('.//{*}atom')", "root.findall('.//atom')")], "C16", "fail"),
+    ("load_cml: bond lookup finds atoms", "breaking", "mofun/atoms.py",
+     [("root.findall('.//{*}bond')", "root.findall('.//{*}atom')"), ("atom_dicts = [a.attrib for a in root.findall('.//{*}atom')]", "atom_dicts = [a.attrib for a in root.findall('.//{*}atom')] ")], "C16", "fail"),
+    ("load_p1_cif: REVERT efb958d (charges read with float)", "breaking", "mofun/atoms.py",
+     [("charges = [tofloat(c) for c in block['_atom_site_charge']]", "charges = [float(c) for c in block['_atom_site_charge']]")], "C15", "fail"),
+    ("uc_neighbor_offsets: meshgrid arguments give another image order ('ij' indexing)", "breaking", "mofun/mofun.py",
+     [("np.array(np.meshgrid([-1, 0, 1],[-1, 0, 1],[-1, 0, 1])).T.reshape(-1, 1, 3)", "np.array(np.meshgrid([-1, 0, 1],[-1, 0, 1],[-1, 0, 1])).reshape(3, -1).T.reshape(-1, 1, 3)")], "C17", "fail"),
+    ("uc_neighbor_offsets: cell not transposed in the product", "breaking", "mofun/mofun.py",
+     [("np.matmul(uc_vectors.T, mult[0])", "np.matmul(uc_vectors, mult[0])")], "C17", "fail"),
+    ("uc_neighbor_offsets: only the positive half of the multipliers", "breaking", "mofun/mofun.py",
+     [("np.meshgrid([-1, 0, 1],[-1, 0, 1],[-1, 0, 1])", "np.meshgrid([0, 1],[0, 1],[0, 1])")], "C17", "fail"),
+    ("uc_neighbor_offsets: comprehension variable renamed", "neutral", "mofun/mofun.py",
+     [("np.array([np.matmul(uc_vectors.T, mult[0]) for mult in multipliers])", "np.array([np.matmul(uc_vectors.T, m[0]) for m in multipliers])")], "C17", "pass"),
     # ---- leaving the subset
     ("max_bond_length: while loop added (outside the subset)", "unsupported", "mofun/detect_bonds.py",
      [('    """Return the maximum length of a bond between two elements"""\n', '    while False:\n        pass\n')], "C17", "Unsupported"),
